@@ -32,7 +32,7 @@ ANCHORS = [
 ]
 REQUIRED = ["runs_judged", "plug_events", "unplug_events", "regime:back-to-back-reuse", "regime:simultaneous-events",
             "regime:recompute-after-last-departure", "regime:one-period-session", "connectivity_runs", "second_runs_on_a_reused_queue", "regime:over-128-events-due-at-once", "sched:scripted",
-            "sched:uncontrolled", "sched:sorted", "snapshots_checked", "runs_where_a_waiting_ev_took_over_a_freed_space"]
+            "sched:uncontrolled", "sched:sorted", "snapshots_checked", "runs_where_a_waiting_ev_took_over_a_freed_space", "simulators_built_on_an_empty_queue_filled_afterwards"]
 BUDGET_S = {"quick": 240, "thorough": 3000}
 TRACE_RE = re.compile(r"^U*P*S?AX$")
 
@@ -90,7 +90,7 @@ def cases(seed, tier):
             d = gen.scenario(rng, sched="uncontrolled", noise_p=0.2)
         else:
             d = gen.scenario(rng, sched="sorted", kinds=("EVSE", "FR"), noise_p=0.2, constraint_free_p=0.15)
-        out.append({"desc": d, "reuse_queue": rng.random() < 0.12})
+        out.append({"desc": d, "reuse_queue": rng.random() < 0.12, "late_fill": rng.random() < 0.1})
     # networks that assign spaces at run time (contrib StochasticNetwork): sessions name no space of their own, more cars than
     # spaces, so late arrivals wait and take over a freed space (their station changes after their plug-in event)
     for i in range(n // 8):
@@ -119,11 +119,13 @@ def run_case(case, obs):
             obs.ev("runs_where_a_waiting_ev_took_over_a_freed_space")
         _judge(case, obs, d, sim, evs, probe)
         return
-    sim, evs, probe = simrun.run_traced(d)
+    sim, evs, probe = simrun.run_traced(d, late_fill=bool(case.get("late_fill")))
+    if case.get("late_fill"):
+        obs.ev("simulators_built_on_an_empty_queue_filled_afterwards")
     _judge(case, obs, d, sim, evs, probe)
     if case.get("reuse_queue") and probe.exception is None and sim.event_queue.empty():
         # the drained EventQueue object is refilled and handed to a second, fresh simulator (starts at period 0 again)
-        sim2, evs2, probe2 = simrun.run_traced(d, queue=sim.event_queue)
+        sim2, evs2, probe2 = simrun.run_traced(d, queue=sim.event_queue, late_fill=bool(case.get("late_fill")))
         obs.ev("second_runs_on_a_reused_queue")
         keep = obs.sample
         _judge(dict(case, second=True), obs, d, sim2, evs2, probe2)
